@@ -269,6 +269,67 @@ pub fn run(tier: &str) -> i32 {
         all.merge(acc);
     }
 
+    // ---- the typed time claims with every spelling their constructors may take: RFC 3339 renderings and the wider
+    //      ISO 8601 forms of the iso8601 crate (no offset, no seconds, basic format, ordinal / week dates, fractions,
+    //      hour-only offsets, lower-case separators). Whatever spelling the constructor accepts is the claim that was
+    //      set, so the parsed member is that text, byte for byte; a refused spelling is no claim and not judged here.
+    {
+        use crate::adapter::{BEvent, BOp, ClaimSpec, Layer, Out, PEvent, POp};
+        let mut acc = Acc::default();
+        let p = Proto::workhorse();
+        crate::adapter::freeze_default_clock();
+        let key = crate::domains::key_pool(p)[0].clone();
+        let mut spellings: Vec<String> = Vec::new();
+        for date in ["2039-01-01", "20390101", "2039-001", "2039001", "2039-W01-1", "2039W011", "0000-01-01", "9999-12-31", "2040-02-29"] {
+            for time in ["00:00:00", "0000", "00:00", "000000", "23:59:59", "23:59:60", "12:30:45.5", "12:30:45.250", "12:30:45,5", "12:30:45.123456789", "24:00:00", "00"] {
+                for sep in ["T", "t", " "] {
+                    for off in ["", "Z", "z", "+00:00", "-00:00", "+0000", "+00", "-05:00", "+05:30", "+14:00", "-12", "+0530"] {
+                        spellings.push(format!("{}{}{}{}", date, sep, time, off));
+                    }
+                }
+            }
+        }
+        for s in ["2039-01-01", "2039-01", "2039", "2039-01-01T", "2039-01-01T00:00:00 ", "2039-01-01T00:00:00Z ", "2039-01-01T00:00:00+00:00Z", "2039-01-01T00:00:00.Z", "2039-01-01T00:00:00.0000000000Z"] {
+            spellings.push(s.to_string());
+        }
+        let mut accepted = 0u64;
+        for s in &spellings {
+            for k in ["exp", "nbf", "iat"] {
+                let ops = vec![BOp::Claim(ClaimSpec::auto("other", json!(1))), BOp::Claim(ClaimSpec::auto(k, json!(s))), BOp::Build];
+                let (ev, _) = crate::adapter::with_rng_script(vec![vec![3u8; 32]], || crate::adapter::build_history(p, Layer::Generic, &key.sk, &ops));
+                acc.executions += 1;
+                acc.choice_points += 1;
+                if matches!(ev.get(1), Some(BEvent::Ctor(_))) {
+                    acc.bump("time-spelling:refused-by-constructor");
+                    continue;
+                }
+                accepted += 1;
+                let got = match ev.last() {
+                    Some(BEvent::Built(Out::Ok(t))) => match crate::adapter::parse_history(p, Layer::Generic, false, &[key.pk.clone()], &[t.clone()], &[POp::Parse(0, 0)]).last() {
+                        Some(PEvent::Parsed(Out::Ok(v), _)) => Some(v.clone()),
+                        _ => None,
+                    },
+                    _ => None,
+                };
+                if got.as_ref().map_or(false, |v| v.as_object().map_or(0, |o| o.len()) == 2 && v.get(k) == Some(&json!(s)) && v.get("other") == Some(&json!(1))) {
+                    acc.controls_ok += 1;
+                    acc.bump("time-spelling:parsed-verbatim");
+                } else {
+                    acc.violate(
+                        format!("C14|{}|time-claim-spelling-not-kept|{}", p.name(), k),
+                        format!("set_claim(<{} claim type>::try_from({:?})) was accepted; build; parse -> {:?}: expected {{\"other\":1,{:?}:{:?}}}", k, s, got, k, s),
+                        json!({"hostile_key": format!("time-spelling {} {}", k, s)}),
+                    );
+                }
+            }
+        }
+        acc.bump_n("time-spelling:spellings", spellings.len() as u64);
+        if accepted == 0 {
+            acc.violate("C14|time-claim-spellings|vacuous".into(), "no time-claim spelling was accepted by any constructor: the pass decided nothing".into(), json!({"hostile_key": "time-spelling vacuous"}));
+        }
+        all.merge(acc);
+    }
+
     // ---- long histories: one key set N times (the last value wins), set N times then removed (absent), and N
     //      distinct keys (all present), for N on both sides of powers of two
     {
